@@ -19,7 +19,7 @@ from . import c05
 ID = "C20"
 UNKNOWN = "<unknown>"
 
-PAIRS = {"int": ["n", "m"], "str": ["s", "t"], "list": ["l", "k", "ld"], "chk": ["c", "c2"]}
+PAIRS = {"int": ["n", "m"], "str": ["s", "t"], "list": ["l", "k", "ld", "g_items"], "chk": ["c", "c2"]}
 LIST_KINDS = ["append", "append", "insert", "extend", "iadd", "delitem_i", "delitem_s",
               "setitem_i", "setitem_s", "setitem_s_match", "pop", "pop_last", "remove", "clear",
               "reverse", "sort", "imul"]
